@@ -617,7 +617,7 @@ func main() {
 	runner.Main(runner.Config{
 		Property:  "C02",
 		Technique: "bounded-exhaustive enumeration of synthesised struct types x rule lists x values vs walk reference model (exact clause strings, order, separators)",
-		Rule: "struct types from reflect.StructOf: 1 field (all rule lists of length<=3, thorough <=4, over {required,to=2~3,eq=2,in=(a/b),phone,zz(unknown),either=1,botheq=1}, rendered plainly and with empty items, kinds string/int32/[]int32/uint64 (incl. 1<<63), 3-5 values), " +
+		Rule: "struct types from reflect.StructOf: 1 field (all rule lists of length<=3, thorough <=4, over {required,to=2~3,eq=2,in=(a/b),phone,zz(unknown),either=1,botheq=1}, rendered plainly and with empty items, kinds string/int32/[]int32/uint64 (incl. 1<<63)/float32 (incl. 2.1, which prints 17 digits when widened), 3-5 values), " +
 			"2 fields (lists<=2 x lists<=1|2), 3 fields (lists<=1); rules declared in tags and supplied per call; every 2-field type additionally as two objects with different values in []T, map[string]T (entries by value), map[int]*T and nested under a parent (map, slice, value, **T, []**T and map[string]**T fields); unique custom messages (message mode) and default wording; " +
 			"expected = ordered field clauses then group clauses (multiset); non-trivial = cases with >=2 expected clauses",
 		Assumptions: []string{"walk model internal/walk is the statement of C02/C04/C16/C17", "group clauses compared as a multiset (Go map order)"},
